@@ -13,7 +13,7 @@ class C11(ProgProp):
     wrapper_stream = (150, 4000)
     theorems = ['C11.minv_step', 'C11.mutex_reachable', 'C11.selection_access_under_lock', 'C11.acquire_exclusive',
                 'C11.raii', 'C11.winv_step', 'C11.no_deadlock', 'C11.holder_witness', 'C11.wrapper_order',
-                'C11.hinv_step', 'C11.holder_specified']
+                'C11.hinv_step', 'C11.holder_specified', 'C04.release_reaction_reaches_holder']
     partial = [('C11.holder', 'a granted client receives the out-events until it releases: false of the current code under '
                 'the schedule in which another client\'s delayed Deselect runs after the new holder\'s Select (finding D-9; '
                 'negation proved on a 19-step schedule by decide); for the specified Deselect (clear only the '
@@ -21,7 +21,7 @@ class C11(ProgProp):
                 'C11.holder_specified'),
                ('C11.memory_model', 'C++ memory model, std::mutex itself, the real dzn::pump and blocking user handlers are '
                 'not exhibited by the model; data-race freedom is sampled with ThreadSanitizer on the real shell')]
-    proof_modules = ['DznProofs.C11', 'DznProofs.C11Holder']
+    proof_modules = ['DznProofs.C11', 'DznProofs.C11Holder', 'DznProofs.C04React']
     level_rule = ('real multi-client shells compiled with a threaded mock pump (-DVT_THREADED), 2-3 client threads running '
                   'claim/use/release cycles against an arbiter component while the dispatcher thread raises out-events; '
                   'random schedules from the OS with seeded pauses; g++ runs checked against the holder specification on '
